@@ -5,7 +5,7 @@
    that model. *)
 From Coq Require Import List Arith Bool.
 Import ListNotations.
-From GV Require Import C15.Model C15.Proofs.
+From GV Require Import C15.Model C15.Proofs C15.Fixed.
 
 (* The code as it exists delivers a reply to a different Ask: the handler of ask 0 wins the
    responseClosed CAS and is preempted before the send; ask 0 times out and returns its channel to
@@ -29,6 +29,31 @@ Theorem C15_ctx_reuse_refuted : exists nresps ls,
   results s 2 = [Some (Some 0); Some None] /\ replied_in_time (asks s 1) = true.
 Proof. exists [1; 1], w_stomp. exact stomp_witness. Qed.
 
+(* ================================================================ the repaired Ask paths (fx = true) *)
+(* For any number of Asks, every interleaving of askers, handlers (calling Response any number of
+   times), deadlines and context recycling, every answer of the channel and context pools
+   ([reach]: inductive closure, no bound). Guard of the `_partial` names: fx = true, i.e. the asker
+   does not touch the ReceiveContext after the enqueue, re-pools the channel only after it took the
+   reply, and polls the channel on the timeout/cancel branch. *)
+
+(* An Ask that returns a reply returns the reply to its own request. *)
+Theorem C15_no_cross_delivery_partial : forall nresps s i v,
+  reach nresps s -> result s i = Some (Some v) -> v = i.
+Proof. exact fixed_no_cross. Qed.
+
+(* An Ask does not fail when the handler's (first) Response call returned before the deadline. *)
+Theorem C15_in_time_reply_returned_partial : forall nresps s i,
+  reach nresps s -> result s i = Some None -> replied_in_time (asks s i) = false.
+Proof. exact fixed_in_time. Qed.
+
+(* Together: whatever the Ask returns after an in-time Response, it is exactly that reply. *)
+Theorem C15_own_reply_partial : forall nresps s i r,
+  reach nresps s -> result s i = Some r -> replied_in_time (asks s i) = true -> r = Some i.
+Proof. exact fixed_reply_returned. Qed.
+
 Print Assumptions C15_cross_refuted.
 Print Assumptions C15_lost_refuted.
 Print Assumptions C15_ctx_reuse_refuted.
+Print Assumptions C15_no_cross_delivery_partial.
+Print Assumptions C15_in_time_reply_returned_partial.
+Print Assumptions C15_own_reply_partial.
